@@ -1,0 +1,18 @@
+//! Child module of `server/unix.rs` (feature `verif`): run the real per-connection session
+//! (`serve`) over an already connected `UnixStream`, e.g. one end of `UnixStream::pair()`.
+
+use crate::server::CloneableWbApi;
+use miette::{IntoDiagnostic, Result};
+use tokio::net::UnixStream;
+use tosub::SubsystemHandle;
+use worterbuch_common::ClientId;
+
+pub async fn serve(
+    subsys: &SubsystemHandle,
+    client_id: ClientId,
+    worterbuch: CloneableWbApi,
+    socket: UnixStream,
+) -> Result<()> {
+    let remote_addr = socket.peer_addr().into_diagnostic()?;
+    super::serve(subsys, client_id, &remote_addr, worterbuch, socket).await
+}
